@@ -163,10 +163,14 @@ Checks(o) ==
            prop == IF e.ingc THEN "C07_Recovered" ELSE "C06_Recovered"
            f11(k) == e.reads[k].res = "err" /\ \E i \in 1..Len(e.hintahead) : e.hintahead[i] = e.reads[k].c
            f6(k) == e.ingc /\ gc.begin = 0 /\ kv[k].ver <= 0 /\ e.reads[k].res = "hit" /\ e.reads[k].ver > 0
+           \* F19: a torn in-place copy of a multi-block record that overlaps its own old copy destroyed BOTH copies:
+           \* the independent scan finds no intact record of the key's current version anywhere in the snapshot
+           f19(k) == e.ingc /\ e.phase = "torn" /\ e.kind = "data.gcappend" /\ kv[k].ver > 0
+                     /\ ~\E d \in Dset : d.k = k /\ d.ver = kv[k].ver
        IN IF e.childdied THEN {<<sid, e.n, prop \o "_ChildDied">>}
           ELSE IF ~e.started
             THEN (IF e.inside \/ e.unaligned THEN {} ELSE {<<sid, e.n, prop \o "_Refused">>})
-          ELSE {<<sid, e.n, prop \o (IF f11(k) THEN "!F11" ELSE IF f6(k) THEN "!F6" ELSE ""), k>> :
+          ELSE {<<sid, e.n, prop \o (IF f11(k) THEN "!F11" ELSE IF f6(k) THEN "!F6" ELSE IF f19(k) THEN "!F19" ELSE ""), k>> :
                    k \in {k \in K : IF e.ingc THEN ~exact(k, e.reads[k]) ELSE ~ok(k, e.reads[k])}}
   ELSE IF e.a = "ReadAll" THEN
        {<<sid, e.n, (IF Colliding(k) THEN "C13_ReadAll" ELSE IF e.aftergc THEN "C03_ReadAll" ELSE IF e.afteropen THEN "C02_ReadAll" ELSE "C01_ReadAll") \o KfTagR(k, e.afteropen, e.aftergc, e.reads[k].res), k>> :
